@@ -6,6 +6,7 @@ import (
 	"encoding/json"
 	"fmt"
 	"hash/crc32"
+	"io"
 	"os"
 	"sort"
 	"strings"
@@ -100,17 +101,20 @@ func commentBody(raw string) string {
 
 type commentIndex struct {
 	bodies   [][]string // normalised lines of the generator's comment items, in file order
+	line     []bool     // the item is a `//` comment
+	nlAfter  []bool     // the source has a line end directly after the item
 	anyEmpty bool
 }
 
-func newCommentIndex(raws []string) *commentIndex {
-	ci := &commentIndex{}
+func newCommentIndex(raws []string, nlAfter []bool) *commentIndex {
+	ci := &commentIndex{nlAfter: nlAfter}
 	for _, r := range raws {
 		b := normLines(commentBody(r))
 		if len(b) == 0 {
 			ci.anyEmpty = true
 		}
 		ci.bodies = append(ci.bodies, b)
+		ci.line = append(ci.line, strings.HasPrefix(r, "//"))
 	}
 	return ci
 }
@@ -141,6 +145,11 @@ func (ci *commentIndex) match(reported string) (lo, hi int, ok bool) {
 			}
 			k += len(b)
 			if k == len(want) && len(b) > 0 {
+				// white space is otherwise forgiven, but a line end reported after a `//` comment that the
+				// source ends without one (comment at the very end of the file) is not text from the source
+				if strings.HasSuffix(reported, "\n") && ci.line[e] && !ci.nlAfter[e] {
+					return 0, 0, false
+				}
 				return s + 1, e + 1, true
 			}
 		}
@@ -203,11 +212,12 @@ func compileMain(texts map[string]string, mode protocompile.SourceInfoMode) (fd 
 }
 
 // traceCase compiles one workspace in the four modes and records its trace.
-func traceCase(id string, n int, key string, fc *featgen.Case, texts map[string]string, commentRaws []string,
-	wantShape []byte, isLayout bool, tr *tracer, out *sink, st *c23Stats) {
+func traceCase(id string, n int, key string, fc *featgen.Case, texts map[string]string, commentRaws []string, nlAfter []bool,
+	wantShape []byte, skel string, tr *tracer, out *sink, st *c23Stats) {
+	isLayout := skel != ""
 	st.Cases++
 	main := strings.TrimPrefix(texts[featgen.Main], "\xEF\xBB\xBF")
-	ci := newCommentIndex(commentRaws)
+	ci := newCommentIndex(commentRaws, nlAfter)
 	begun := false
 	stdLocs, stdComments := 0, 0
 	features := fc.Features
@@ -236,7 +246,7 @@ func traceCase(id string, n int, key string, fc *featgen.Case, texts map[string]
 					}
 				}
 			}
-			tr.ev(map[string]any{"e": "Begin", "id": id, "syntax": fc.Syntax, "features": features, "shape": sh,
+			tr.ev(map[string]any{"e": "Begin", "id": id, "skel": skel, "syntax": fc.Syntax, "features": features, "shape": sh,
 				"widths": refLineTable([]byte(main)), "ncom": len(commentRaws)})
 			begun = true
 		}
@@ -346,13 +356,15 @@ func runC23(in *bufio.Scanner, out *sink, tracePath string) error {
 			texts := featgen.Render(fc)
 			texts[featgen.Main] = source
 			var raws []string
-			for _, it := range items {
+			var nls []bool
+			for i, it := range items {
 				if it.isComment() {
 					raws = append(raws, it.Text)
+					nls = append(nls, i+1 < len(items) && (items[i+1].Kind == "LF" || items[i+1].Kind == "CRLF"))
 				}
 			}
 			st.LayoutCases++
-			traceCase(id, n, c.key(), fc, texts, raws, nil, true, tr, out, &st)
+			traceCase(id, n, c.key(), fc, texts, raws, nls, nil, c.Skel, tr, out, &st)
 		} else {
 			var c ffCase
 			if err := json.Unmarshal(other, &c); err != nil {
@@ -360,16 +372,42 @@ func runC23(in *bufio.Scanner, out *sink, tracePath string) error {
 			}
 			texts := featgen.Render(&c.Case)
 			var raws []string
-			for _, p := range scan(texts[featgen.Main]) {
+			var nls []bool
+			pieces := scan(texts[featgen.Main])
+			for i, p := range pieces {
 				if p.Kind == "c" {
 					raws = append(raws, p.Text)
+					nls = append(nls, i+1 < len(pieces) && pieces[i+1].Kind == "ws" &&
+						(strings.HasPrefix(pieces[i+1].Text, "\n") || strings.HasPrefix(pieces[i+1].Text, "\r\n")))
 				}
 			}
 			st.FFCases++
-			traceCase(id, n, c.Key(), &c.Case, texts, raws, []byte(c.Shape), false, tr, out, &st)
+			traceCase(id, n, c.Key(), &c.Case, texts, raws, nls, []byte(c.Shape), "", tr, out, &st)
 		}
 	}
 	b, _ := json.Marshal(st)
 	fmt.Fprintf(os.Stderr, "STATS %s\nEVENTS %d\n", b, tr.n)
+	return nil
+}
+
+func runSI(w *bufio.Writer) error {
+	data, err := io.ReadAll(os.Stdin)
+	if err != nil {
+		return err
+	}
+	texts := featgen.Render(&featgen.Case{Syntax: "proto3"})
+	texts[featgen.Main] = string(data)
+	for _, m := range siModes {
+		fd, err, pan := compileMain(texts, m.mode)
+		if err != nil || pan != "" {
+			fmt.Fprintf(w, "%s: %v %s\n", m.name, err, pan)
+			continue
+		}
+		for _, loc := range fd.GetSourceCodeInfo().GetLocation() {
+			if loc.LeadingComments != nil || loc.TrailingComments != nil || len(loc.LeadingDetachedComments) > 0 {
+				fmt.Fprintf(w, "%s %v %v lead=%q trail=%q det=%q\n", m.name, loc.Path, loc.Span, loc.GetLeadingComments(), loc.GetTrailingComments(), loc.LeadingDetachedComments)
+			}
+		}
+	}
 	return nil
 }
